@@ -163,3 +163,17 @@ PROPS["C09"] = {
               "require_labels": ["c1-injected", "nonstring-key-injected", "nonminimal-width", "has-bin-ext"]},
     "thorough": {"configs": NUM_ROWS, "cases": 4000000, "floor_evaluations": 10000000},
 }
+
+PROPS["C11"] = {
+    "title": "Filtering equals projecting the unfiltered result",
+    "src": "c11.cpp",
+    "level": "exploration",
+    "technique": "metamorphic / differential property-based testing: filtered run vs projection (independent 40-line specification) of the unfiltered run; Filter(true) vs no filter compared on code, document, consumed bytes and allocator call log; ledger peak/cumulative comparison on the same consumed prefix",
+    "rule": "case = (input, filter, nesting limit): input = generated value spelled as JSON (strict or dialect) or encoded as MessagePack (generated widths), 20% mutated into malformed inputs; filter = derived from the input's shape (keep/drop/replace nodes by true, false, null, numbers, strings, {}, [], wildcard members, absent keys, 0-2 element array filters) or deliberately mismatched (object over array, array over object) or an unrelated generated value; passed as Filter(JsonDocument&) or Filter(JsonVariantConst); every case is non-trivial (three executions are compared); distinct = hash of (input, filter)",
+    "level_text": "Exploration: for every accepted input the filtered document must equal the projection computed by ref/filter_ref.hpp, for JSON and MessagePack; Filter(true) must be indistinguishable from no filter on every input; filtering must not request more memory when it consumed no more input; no crash for any pair (ASan/UBSan/DEBUG asserts).",
+    "level_note": "Zones (counted): filter entries equal to the number 1, explicit null next to a wildcard, raw values or NUL/duplicate keys in the filter, duplicate keys in the input. Memory is compared only when the filtered run consumed no more input than the unfiltered one (errors inside discarded parts may go unnoticed, so the filtered run may legitimately parse further).",
+    "quick": {"cases": 300000, "floor_evaluations": 200000, "floor_nontrivial": 100000,
+              "require_labels": ["projection-proper", "shape-mismatch", "memory-judged", "malformed-input"]},
+    "thorough": {"cases": 8000000, "floor_evaluations": 4000000},
+    "regress": ["msgpack_wildcard_over_array"],
+}
